@@ -453,7 +453,7 @@ def _create_sbml_variables(
             ar = sbml_model.createInitialAssignment()
             ar.setId(_convert_id_to_sbml(id_=name, prefix="IA"))
             ar.setName(_convert_id_to_sbml(id_=name, prefix="IA"))
-            ar.setVariable(_convert_id_to_sbml(id_=name, prefix="IA"))
+            ar.setSymbol(_convert_id_to_sbml(id_=name, prefix="IA"))
             ar.setMath(_sbmlify_fn(init.fn, init.args))
         else:
             cpd.setInitialConcentration(float(init))
@@ -504,7 +504,7 @@ def _create_sbml_parameters(
             ar = sbml_model.createInitialAssignment()
             ar.setId(_convert_id_to_sbml(id_=name, prefix="IA"))
             ar.setName(_convert_id_to_sbml(id_=name, prefix="IA"))
-            ar.setVariable(_convert_id_to_sbml(id_=name, prefix="IA"))
+            ar.setSymbol(_convert_id_to_sbml(id_=name, prefix="IA"))
             ar.setMath(_sbmlify_fn(init.fn, init.args))
         else:
             k.setValue(float(init))
